@@ -143,7 +143,8 @@ def audit_axioms(prop, props_mod, names, timeout=1200):
     """`#print axioms` for every name. Returns {name: set(axioms) | None if unknown}."""
     d = os.path.join(paths.LEAN, ".lake", "audit")
     os.makedirs(d, exist_ok=True)
-    f = os.path.join(d, f"{prop}.lean")
+    # one file per process: concurrent checks of the same property must not overwrite each other's audit file
+    f = os.path.join(d, f"{prop}-{os.getpid()}.lean")
     with open(f, "w") as fh:
         fh.write(f"import {props_mod}\n")
         try:
@@ -158,6 +159,11 @@ def audit_axioms(prop, props_mod, names, timeout=1200):
         p = subprocess.run(["lake", "env", "lean", f], cwd=paths.LEAN, capture_output=True, text=True, timeout=timeout)
     finally:
         lock.close()
+    try:
+        # keep the last audit file under the stable name the evidence's checker_cmd refers to
+        os.replace(f, os.path.join(d, f"{prop}.lean"))
+    except OSError:
+        pass
     out = p.stdout + p.stderr
     res = {n: None for n in names}
 
